@@ -15,10 +15,9 @@
    [RPanic] = unwrap() of a missing id, unreachable!(); [RFuel] = the model ran out of
    fuel (type spaces may be cyclic through Box, so recursion is on explicit fuel).
 
-   [strict] is NOT in the Rust code: [strict = false] is the code as it is (the
-   String arm accepts every JSON value, defaults.rs:311-317); [strict = true] is the
-   repaired arm (a JSON string is required).  It exists only to state the class of
-   finding C06-F1 (inputs on which the two differ). *)
+   [re] stands for the regress engine: [re p s] = `Regex::new(p).map(|r| r.find(s).is_some()).unwrap_or(false)`
+   (defaults.rs, Newtype arm); the theorems hold for every such function, the correspondence
+   check instantiates it with a table computed by the real regress crate. *)
 From Coq Require Import String ZArith NArith QArith List Bool.
 From Typify Require Import Base.Json IR.TypeIR.
 Import ListNotations.
@@ -168,8 +167,63 @@ Definition named_of (l : list pinfo) : list (ustring * (id * bool)) :=
 Definition unnamed_of (l : list pinfo) : list id :=
   flat_map (fun '(nm, t, _) => match nm with None => [t] | Some _ => [] end) l.
 
+(* ---- newtype constraints as the repaired Newtype arm checks them (defaults.rs, fix 9117497):
+   allow/deny lists by serde_json::Value equality, lengths in scalar values (chars().count()),
+   pattern by an unanchored regress `find` ---- *)
+Definition opt_leb (a : option N) (n : N) : bool := match a with Some m => N.leb m n | None => true end.
+Definition opt_geb (a : option N) (n : N) : bool := match a with Some m => N.leb n m | None => true end.
+Definition constraint_ok (re : ustring -> ustring -> bool) (c : constraints) (v : json) : bool :=
+  match c with
+  | CNone => true
+  | CEnum vs => existsb (fun x => json_eqb x v) vs
+  | CDeny vs => negb (existsb (fun x => json_eqb x v) vs)
+  | CString mx mn pat =>
+      match v with
+      | JStr s => opt_geb mx (chars_count s) && opt_leb mn (chars_count s) &&
+                  match pat with Some p => re p s | None => true end
+      | _ => false
+      end
+  end.
+
+(* ---- integer_fits (defaults.rs, fix 07af100) ---- *)
+Fixpoint strip_prefix (p s : ustring) : option ustring :=
+  match p, s with
+  | [], _ => Some s
+  | x :: p', y :: s' => if N.eqb x y then strip_prefix p' s' else None
+  | _ :: _, [] => None
+  end.
+(* str::trim_start_matches(prefix): strips every leading repetition *)
+Fixpoint trim_start (fuel : nat) (p s : ustring) : ustring :=
+  match fuel with
+  | O => s
+  | S n => match p with
+           | [] => s
+           | _ => match strip_prefix p s with Some r => trim_start n p r | None => s end
+           end
+  end.
+Definition int_table (n : string) : option (Z * Z) :=
+  (if String.eqb n "u8" || String.eqb n "U8" then Some (0, 255)
+   else if String.eqb n "u16" || String.eqb n "U16" then Some (0, 65535)
+   else if String.eqb n "u32" || String.eqb n "U32" then Some (0, 4294967295)
+   else if String.eqb n "u64" || String.eqb n "U64" then Some (0, 18446744073709551615)
+   else if String.eqb n "i8" || String.eqb n "I8" then Some (-128, 127)
+   else if String.eqb n "i16" || String.eqb n "I16" then Some (-32768, 32767)
+   else if String.eqb n "i32" || String.eqb n "I32" then Some (-2147483648, 2147483647)
+   else if String.eqb n "i64" || String.eqb n "I64" then Some (-9223372036854775808, 9223372036854775807)
+   else None)%Z.
+Definition integer_fits (itype : ustring) (v : json) : bool :=
+  match int_table (string_of_ustring (trim_start (length itype) nonzero_prefix itype)) with
+  | None => true
+  | Some (lo, hi) =>
+      match as_u64 v, as_i64 v with
+      | Some z, _ | None, Some z =>
+          ((lo <=? z) && (z <=? hi))%Z && negb (is_nonzero_name itype && Z.eqb z 0)
+      | None, None => true
+      end
+  end.
+
 Section Det.
-  Variable strict : bool.
+  Variable re : ustring -> ustring -> bool.
   Variable T : space.
   (* validate_type_id at the next fuel level / all_props at the next fuel level *)
   Variable rec : id -> json -> res kind.
@@ -284,7 +338,7 @@ Section Det.
         | TagUntagged => v_untagged vs v
         end
     | DStruct _ _ props _ => v_struct_props props v
-    | DNewtype _ _ t _ => rec t v
+    | DNewtype _ _ t c => do k <- rec t v; if constraint_ok re c v then ROk k else RErr
     | DOption t =>
         match v with
         | JNull => ROk KIntrinsic
@@ -340,6 +394,7 @@ Section Det.
         | _ => RErr
         end
     | DInteger name =>
+        if negb (integer_fits name v) then RErr else
         match as_u64 v, as_i64 v with
         | None, None => RErr
         | Some 0%Z, _ => ROk KIntrinsic
@@ -355,26 +410,22 @@ Section Det.
         match v with
         | JStr [] => ROk KIntrinsic
         | JStr _ => ROk KSpecific
-        | _ => if strict then RErr else ROk KSpecific
+        | _ => RErr
         end
     | DReference _ => RPanic
     end.
 End Det.
 
-Fixpoint validate_gen (strict : bool) (T : space) (fuel : nat) (t : id) (v : json) {struct fuel} : res kind :=
+Fixpoint validate_value (re : ustring -> ustring -> bool) (T : space) (fuel : nat) (t : id) (v : json)
+  {struct fuel} : res kind :=
   match fuel with
   | O => RFuel
   | S n =>
       match get_det T t with
       | None => RPanic
-      | Some d => validate_det strict T (validate_gen strict T n) (all_props T n) d v
+      | Some d => validate_det re T (validate_value re T n) (all_props T n) d v
       end
   end.
-
-(* the code as it is *)
-Definition validate_value : space -> nat -> id -> json -> res kind := validate_gen false.
-(* with the String arm repaired (patches/C06-1.diff) *)
-Definition validate_strict : space -> nat -> id -> json -> res kind := validate_gen true.
 
 (* ---- check_defaults (63-133): what finalize() validates for one entry ---- *)
 Definition prop_default_checks (ps : list prop) : list (id * json) :=
@@ -392,10 +443,10 @@ Definition entry_default_checks (self : id) (d : details) : list (id * json) :=
    | _ => []
    end))%list.
 
-Definition check_defaults (T : space) (fuel : nat) (self : id) : res unit :=
+Definition check_defaults (re : ustring -> ustring -> bool) (T : space) (fuel : nat) (self : id) : res unit :=
   match get_det T self with
   | None => RPanic
-  | Some d => each (fun '(t, v) => validate_value T fuel t v) (entry_default_checks self d)
+  | Some d => each (fun '(t, v) => validate_value re T fuel t v) (entry_default_checks self d)
   end.
 
 (* ---- has_default (structs.rs:423-485): state of a non-required property ---- *)
@@ -404,6 +455,7 @@ Definition has_default (d : option details) (default : option json) : pstate :=
   | Some (DOption _), None | Some (DVec _), None | Some (DMap _ _), None | Some DUnit, None => POptional
   | _, None => PRequired
   | Some (DOption _), Some JNull => POptional
+  | Some DUnit, Some JNull => POptional
   | Some (DVec _), Some (JArr []) => POptional
   | Some (DMap _ _), Some (JObj []) => POptional
   | Some DBoolean, Some (JBool false) => POptional
@@ -411,23 +463,6 @@ Definition has_default (d : option details) (default : option json) : pstate :=
   | Some (DInteger _), Some (JFlt q) => if Z.eqb (Qnum q) 0 then POptional else PDefault (JFlt q)
   | Some DString, Some (JStr []) => POptional
   | _, Some v => PDefault v
-  end.
-
-(* ---- what the IR says a value of a constrained newtype must satisfy (type_entry.rs
-   TypeEntryNewtypeConstraints; lengths in scalar values as the generated FromStr counts them;
-   patterns are not interpreted here) -- used only to STATE finding C06-F3 ---- *)
-Definition opt_leb (a : option N) (n : N) : bool := match a with Some m => N.leb m n | None => true end.
-Definition opt_geb (a : option N) (n : N) : bool := match a with Some m => N.leb n m | None => true end.
-Definition constraint_ok (c : constraints) (v : json) : bool :=
-  match c with
-  | CNone => true
-  | CEnum vs => existsb (json_eqb v) vs
-  | CDeny vs => negb (existsb (json_eqb v) vs)
-  | CString mx mn _ =>
-      match v with
-      | JStr s => opt_geb mx (chars_count s) && opt_leb mn (chars_count s)
-      | _ => false
-      end
   end.
 
 (* shapes the IR fixes by itself: a value of the wrong JSON type / arity for the type kind *)
